@@ -503,18 +503,43 @@ def run(ctx):
     rule_matrix(ctx, py)
     # validity and labels (shared with C20.ENUM)
     f = py.fn("rdnetwork.RDNetwork._assert_validity")
-    src = pyfe.src(f)
-    for what, frag in (("duplicate species label", "duplicated species label"), ("duplicate reaction label",
-                       "duplicated reaction label"), ("undeclared reactant", "undefined substrate species"),
-                       ("undeclared product", "undefined product species")):
-        ctx.check(frag in src, "C19.VALID", f, f._qual, what + " raises", "", "the check is gone")
+    # the four refusals, recognised by where they stand and what they test (not by the wording of their messages): a raise in a
+    # loop over the species / the reactions under a test of `.label`; a raise in a loop over a reaction's reactants / products
+    # under a `not in` test
+    from .. import pysym as _ps
+    kinds = set()
+    for r_ in [x for x in ast.walk(f) if isinstance(x, ast.Raise)]:
+        loops, tests = [], []
+        p_, c_ = pyfe.parent(r_), r_
+        while p_ is not None and p_ is not f:
+            if isinstance(p_, ast.For):
+                loops.append(_ps.isrc(p_.iter, f))
+            elif isinstance(p_, ast.If) and any(c_ is b_ for b_ in p_.body):
+                tests.append(p_.test)
+            p_, c_ = pyfe.parent(p_), p_
+        ltxt = " | ".join(loops)
+        ttxt = " & ".join(pyfe.src(t_) for t_ in tests)
+        notin = any(isinstance(x, ast.Compare) and any(isinstance(o_, ast.NotIn) for o_ in x.ops) for t_ in tests for x in ast.walk(t_))
+        if notin and ("_substrates" in ltxt or "substrates" in ltxt):
+            kinds.add("undeclared reactant")
+        elif notin and ("_products" in ltxt or "products" in ltxt):
+            kinds.add("undeclared product")
+        elif ".label" in ttxt and "reactions" in ltxt:
+            kinds.add("duplicate reaction label")
+        elif ".label" in ttxt and "species" in ltxt:
+            kinds.add("duplicate species label")
+    for what in ("duplicate species label", "duplicate reaction label", "undeclared reactant", "undeclared product"):
+        ctx.check(what in kinds, "C19.VALID", f, f._qual, what + " raises", "", "the check is gone")
     # a duplicate is a label met before -- whichever object carries it.  A test by object identity (`found is not s`) lets the
     # same Species / Reaction object listed twice through
     import re as _re
     for r_ in [x for x in ast.walk(f) if isinstance(x, ast.Raise)]:
-        msg = pyfe.src(r_.exc) if r_.exc is not None else ""
-        if "duplicat" not in msg:
-            continue
+        in_loop = [pyfe.parent(r_)]
+        while in_loop[-1] is not None and in_loop[-1] is not f:
+            in_loop.append(pyfe.parent(in_loop[-1]))
+        tests_ = " & ".join(pyfe.src(x.test) for x in in_loop if isinstance(x, ast.If))
+        if ".label" not in tests_ or " not in " in tests_:
+            continue              # not one of the two duplicate refusals
         ats = []
         p_ = pyfe.parent(r_)
         c_ = r_
